@@ -1218,6 +1218,24 @@ where
     dict(id="c03-copyfail-arm-lost", prop="C03", file="src/client.rs", expect="C03-R10",
          what="CopyFail no longer has an arm in the transaction loop (falls into `_ =>`, never forwarded)",
          old="""                    'c' | 'f' => {""", new="""                    'c' => {"""),
+    dict(id="c18-rebuilt-pool-fresh-totals", prop="C18", file="src/pool.rs", expect="C18-R4",
+         what="a rebuilt pool gives every server fresh totals (D77 again)",
+         old="""                            mirrors: mirror_addresses,
+                            stats,""", new="""                            mirrors: mirror_addresses,
+                            stats: Arc::new(AddressStats::default()),"""),
+    dict(id="c04-startup-not-under-catch-unwind", prop="C04", file="src/pool.rs", expect="C04-R7",
+         what="a panic in Server::startup unwinds through connect() again (D78 again)",
+         old="""        .unwrap_or_else(|_| {
+            Err(Error::SocketError(format!(
+                "the startup of a connection to server {:?} panicked",
+                self.address
+            )))
+        }) {""", new="""        .unwrap_or_else(|panic| std::panic::resume_unwind(panic))
+        {"""),
+    dict(id="c12-template-from-the-live-record", prop="C12", file="src/pool.rs", expect="C12-R4",
+         what="validate() copies the connection's live parameter record (D79 again)",
+         old="""                    let server_parameters: ServerParameters = server.startup_parameters();""",
+         new="""                    let server_parameters: ServerParameters = server.server_parameters();"""),
     # ------------------------------------------------------------------ C17
     dict(id="c17-shutdown-checked-in-transaction", prop="C17", file="src/client.rs", expect="C17-R1",
          what="the transaction loop also reacts to the shutdown broadcast",
@@ -1264,6 +1282,14 @@ where
                     let _ = shutdown_tx.send(());''', new='''                    // Broadcast that client tasks need to finish
                     let _ = shutdown_tx.send(());
                     if total_clients >= 0 { break; }'''),
+    dict(id="c17-sigterm-ignored-once-shutting-down", prop="C17", file="src/main.rs", expect="C17-R4",
+         what="a SIGTERM that follows SIGINT is taken as already handled and does not end the process (round-9 seed)",
+         old="""                    info!("Got SIGTERM, closing with {} clients active", total_clients);
+                    break;""", new="""                    info!("Got SIGTERM, closing with {} clients active", total_clients);
+                    if admin_only {
+                        continue;
+                    }
+                    break;"""),
     dict(id="c17-drain-arm-awaits-exit-channel", prop="C17", file="src/main.rs", expect="C17-R5",
          what="the accept loop waits for room in the exit channel it alone drains (D36 again)",
          old="""                        let _ = exit_tx.try_send(());""", new="""                        let _ = exit_tx.send(()).await;"""),
